@@ -52,7 +52,7 @@ def stats_json(stats):
     return out
 
 
-def record_run(params: dict, *, tid: int, workload=None, exact=None, mode="obs", U=None, meta=None, policy_key=None, sparse=False):
+def record_run(params: dict, *, tid: int, workload=None, exact=None, mode="obs", U=None, meta=None, policy_key=None, sparse=False, ret_ctx=False, holder=None):
     """Run run_simulator(params, workload) and return (events, stats_or_None, exception_or_None)."""
     common.import_repo()
     from eudoxia.simulator import run_simulator, parse_args_with_defaults
@@ -136,6 +136,8 @@ def record_run(params: dict, *, tid: int, workload=None, exact=None, mode="obs",
         ex = s.executor
         if st["ex"] is None:
             st["ex"] = ex
+            if holder is not None:
+                holder["ex"] = ex
             hdr(ex)
             wrap_executor(ex)
         pre = {"ost": idx.ost(), "pools": None}       # the policy cannot change the pools: their view is taken when the event is logged
@@ -188,4 +190,6 @@ def record_run(params: dict, *, tid: int, workload=None, exact=None, mode="obs",
     end = {"ev": "end", "tid": tid, "t": st["t"], "stats": stats_json(stats) if stats is not None else {"none": 1},
            "ok": stats is not None, "pipes": pipes, "final_ost": idx.ost(), "uncontended": bool((meta or {}).get("uncontended"))}
     events.append(end)
+    if ret_ctx:
+        return events, stats, exc, {"idx": idx, "cids": cids}
     return events, stats, exc
